@@ -4,7 +4,7 @@ from __future__ import annotations
 import json
 
 from .. import codoncheck as cc, codonspec, common, gen, sge
-from ..runner import Ctx, coq_eval, pool_map
+from ..runner import Ctx, coq_dna, coq_eval, coq_list, pool_map
 
 ALL_MUTS = ['inframe', 'ala', 'stop', 'aa', 'snvre']
 
@@ -171,7 +171,7 @@ def files(ctx: Ctx):
                       {'surface': 'file', 'design': d, 'targeton': t, 'region': reg}, broken='correspondence S-file rows per coding region (C03)')
 
 
-def check_cdna(ctx: Ctx, d: dict, r: dict):
+def check_cdna(ctx: Ctx, d: dict, r: dict, exprs: list | None = None, meta: list | None = None):
     """cDNA mode: the codon-level rows of a coding region 2 (CDS frame from the annotation file) are the oracle's, nothing outside the region."""
     if r['exit'] != 0:
         ctx.violation('spec_violation', f"valid cDNA design refused: exit {r['exit']} {r['exc']} {r['exc_msg'][:80]}",
@@ -194,6 +194,14 @@ def check_cdna(ctx: Ctx, d: dict, r: dict):
         a = annot.get(t['seq_id'])
         got = sorted((x['mutator'], int(x['mut_position']), x['ref'], x['new']) for x in rows if x['mutator'] in cc.CODON_LABELS)
         ctx.evaluations += 1
+        # all rows of the targeton (every mutator, with their annotation) through the model of cdna_proc.proc_targeton
+        muts = [m for m in t['action'] if m]
+        if exprs is not None and len({cc.canonical_label(m) for m in muts}) == len(muts):
+            impl_rows = [cc.canon_file_row(x) for x in rows if x['mut_position'] != '-1']
+            cds = f'(Some (mkRange {a[3]} {a[4]}))' if a else 'None'
+            exprs.append(f"rows_agree (cdna_region_rows {cc.coq_table(cc.table_rows(d), False)} {cds} (mkSeq 1 {coq_dna(d['seqs'][t['seq_id']].upper())}) "
+                         f"(mkRange {t['r2_start']} {t['r2_end']}) {coq_list(cc.coq_mkind(m) for m in muts)}) {cc.coq_impl(('ok', impl_rows))}")
+            meta.append((d, t))
         if not (a and a[3] <= t['r2_start'] and t['r2_end'] <= a[4]):
             if got:
                 ctx.violation('spec_violation', f'cDNA: codon-level rows for a region outside the CDS: {got[:3]}', {'surface': 'file', 'design': d, 'targeton': t})
@@ -229,9 +237,27 @@ def files_cdna(ctx: Ctx):
                 t['ref_end'] = hi if ctx.rng.random() < 0.4 else min(len(d['seqs'][t['seq_id']]), hi + ctx.rng.randint(1, 9))
                 t['action'] = sorted(set(ctx.rng.sample(['snv', 'snvre', 'snvre', 'ala', 'stop', 'aa', 'inframe', '1del'], 3)))
         designs.append(d)
+    exprs, meta = [], []
     for d, r in pool_map(design_case, designs):
         ctx.count('designs_cdna')
-        check_cdna(ctx, d, r)
+        check_cdna(ctx, d, r, exprs, meta)
+    model_cdna(ctx, exprs, meta)
+
+
+CDNA_IMPORTS = cc.IMPORTS + ['Model.Cdna']
+
+
+def model_cdna(ctx: Ctx, exprs, meta):
+    bad, err = coq_eval(CDNA_IMPORTS, exprs, chunk=60)
+    ctx.corr['cases'] += len(exprs)
+    ctx.count('cdna_targetons_through_model', len(exprs))
+    if err:
+        ctx.violation('correspondence', 'model evaluation failed: ' + err[:300], broken='coqc cases (C03 cDNA)', no_input=True)
+    for i in bad[:20]:
+        ctx.corr['disagreements'] += 1
+        d, t = meta[i]
+        ctx.violation('correspondence', f"cDNA rows of {t['seq_id']} region [{t['r2_start']},{t['r2_end']}] differ from the model (cdna_region_rows)",
+                      {'surface': 'file', 'design': d, 'targeton': t, 'kind': 'cdna_model'}, broken='correspondence S-file cdna_proc.proc_targeton (Model/Cdna.v)')
 
 
 def run(ctx: Ctx):
@@ -266,7 +292,9 @@ def replay(ctx: Ctx, path: str) -> int:
     elif 'design' in case:
         d, r = design_case(case['design'])
         if d.get('mode') == 'cdna':
-            check_cdna(ctx, d, r)
+            ex_, me_ = [], []
+            check_cdna(ctx, d, r, ex_, me_)
+            model_cdna(ctx, ex_, me_)
         else:
             check_design(ctx, d, r, [], [])
         bad = bool(ctx.violations)
